@@ -287,20 +287,25 @@ class Model():
             self.get_association_field_names(association)
         left_field = getattr(association, left_field_name)
         right_field = getattr(association, right_field_name)
-        found = False
-        for field in [left_field, right_field]:
-            if asset in field:
-                found = True
-                if len(field) == 1:
-                    # There are no other assets on this side,
-                    # so we should remove the entire association.
-                    self.remove_association(association)
-                    return
-                field.remove(asset)
+        fields_with_asset = [field for field in [left_field, right_field]
+            if asset in field]
 
-        if not found:
+        if not fields_with_asset:
             raise LookupError(f'Asset "{asset.name}"({asset.id}) is not '
                 'part of the association provided.')
+
+        if any(len(field) == 1 for field in fields_with_asset):
+            # There are no other assets on this side,
+            # so we should remove the entire association.
+            self.remove_association(association)
+            return
+
+        for field in fields_with_asset:
+            field.remove(asset)
+
+        # The asset no longer takes part in the association
+        asset.associations = [assoc for assoc in asset.associations
+            if assoc is not association]
 
     def _validate_association(self, association: SchemaGeneratedClass) -> None:
         """Raise error if association is invalid or already part of the Model.
